@@ -29,12 +29,15 @@ where
     }
 
     fn map2_to_curve(p1: &PtT::Base, p2: &PtT::Base) -> PtT {
-        let mut p = {
-            let mut tmp = PtT::osswu_map(p1);
-            tmp.add_assign(&PtT::osswu_map(p2));
-            tmp
-        };
+        // The SSWU images lie on the isogenous curve, whose a-coefficient is
+        // non-zero, while add_assign implements the group law of the target
+        // curve (a = 0).  Map each image through the isogeny first and add
+        // on the target curve, as RFC 9380 section 3 specifies.
+        let mut p = PtT::osswu_map(p1);
         p.isogeny_map();
+        let mut q = PtT::osswu_map(p2);
+        q.isogeny_map();
+        p.add_assign(&q);
         p.clear_h();
         debug_assert!(p.into_affine().in_subgroup());
         p
